@@ -17,7 +17,12 @@ theorem verdict : (classify Generated.factsC25).Sound (Holds (cfgOf Generated.fa
 #print axioms addManyWF_spec
 #print axioms syncWF_ok_spec
 #print axioms holds_of_repaired
-#print axioms holds_repaired
+#print axioms flush_holds_of_repaired
+#print axioms closeWF_spec
+#print axioms delete_sticks_of_repaired
+#print axioms close_retry_of_repaired
+#print axioms deleted_record_resurrects
+#print axioms failed_close_kills_writer
 #print axioms finish_clean
 #print axioms Hv.BlockStore.flushWF_nofault
 #print axioms Hv.BlockStore.addManyWF_nofault
